@@ -1071,4 +1071,100 @@ example : SpotInWindow [0, 1, 3, 0, 0] 2 2 := by
   have : q = 0 ∨ q = 1 ∨ q = 2 ∨ q = 3 ∨ q = 4 := by omega
   rcases this with rfl | rfl | rfl | rfl | rfl <;> simp
 
+/-- **what the centroid estimate is, for ANY data**: pixel + offset is the centre of mass of the pixels
+    of the scan line that lie in the window `p−h … p+h` (those inside the image), with the pixel centre
+    `p` itself entered with weight `eps` (the regularisation of the division). -/
+theorem centroid_window_mean (eps : Rat) (line : List Rat) (h : Nat) (p : Int)
+    (hden : (∑ q ∈ Finset.range line.length,
+        if p - h ≤ (q : Int) ∧ (q : Int) ≤ p + h then pix line q else 0) + eps ≠ 0) :
+    (p : Rat) + subpixelOffset eps line h p
+      = ((∑ q ∈ Finset.range line.length,
+            if p - h ≤ (q : Int) ∧ (q : Int) ≤ p + h then (q : Rat) * pix line q else 0) + (p : Rat) * eps)
+        / ((∑ q ∈ Finset.range line.length,
+            if p - h ≤ (q : Int) ∧ (q : Int) ≤ p + h then pix line q else 0) + eps) := by
+  have hiff : ∀ q : Nat, (p - (h : Int) ≤ (q : Int) ∧ (q : Int) < p - (h : Int) + ((2 * h + 1 : Nat) : Int))
+      ↔ (p - (h : Int) ≤ (q : Int) ∧ (q : Int) ≤ p + h) := by
+    intro q; push_cast; omega
+  have hm0 : ∑ j ∈ Finset.range (2 * h + 1), dAt line (p - h + j)
+      = ∑ q ∈ Finset.range line.length, if p - h ≤ (q : Int) ∧ (q : Int) ≤ p + h then pix line q else 0 := by
+    have := window_sum_eq line (fun _ => 1) (p - h) (2 * h + 1)
+    simp only [one_mul] at this
+    rw [this]
+    apply Finset.sum_congr rfl
+    intro q _
+    simp only [hiff q]
+  have hm1 : ∑ j ∈ Finset.range (2 * h + 1), (((j : Int) - h : Int) : Rat) * dAt line (p - h + j)
+      = (∑ q ∈ Finset.range line.length, if p - h ≤ (q : Int) ∧ (q : Int) ≤ p + h then (q : Rat) * pix line q else 0)
+        - (p : Rat) * ∑ q ∈ Finset.range line.length, if p - h ≤ (q : Int) ∧ (q : Int) ≤ p + h then pix line q else 0 := by
+    have := window_sum_eq line (fun z => ((z - p : Int) : Rat)) (p - h) (2 * h + 1)
+    have e : ∀ j : Nat, (((p - (h : Int) + (j : Int)) - p : Int) : Rat) = (((j : Int) - h : Int) : Rat) := by
+      intro j; congr 1; omega
+    simp only [e] at this
+    rw [this, Finset.mul_sum, ← Finset.sum_sub_distrib]
+    apply Finset.sum_congr rfl
+    intro q _
+    simp only [hiff q]
+    split
+    · push_cast; ring
+    · simp
+  rw [centroid_offset_spec, hm0, hm1]
+  rw [hm0] at *
+  field_simp
+  ring
+
+
+theorem mapM_option_fst (l : List Pt) (F : Pt → Option Rat) (r : List Pt)
+    (h : l.mapM (fun p => (F p).map fun y => (p.1, y)) = some r) : r.map (·.1) = l.map (·.1) := by
+  induction l generalizing r with
+  | nil =>
+    simp only [List.mapM_nil] at h
+    cases h; rfl
+  | cons p ps ih =>
+    rw [List.mapM_cons] at h
+    cases hF : F p with
+    | none => simp [hF] at h
+    | some y =>
+      cases hps : ps.mapM (fun p => (F p).map fun y => (p.1, y)) with
+      | none => simp [hF, hps] at h
+      | some r' =>
+        simp [hF, hps] at h
+        subst h
+        simp [ih r' hps]
+
+theorem mapM_option_map {α β γ} (l : List α) (F : α → Option β) (G : α → γ) (H : β → γ) (r : List β)
+    (hFG : ∀ a ∈ l, ∀ b, F a = some b → H b = G a) (h : l.mapM F = some r) : r.map H = l.map G := by
+  induction l generalizing r with
+  | nil =>
+    simp only [List.mapM_nil] at h
+    cases h; rfl
+  | cons a as ih =>
+    rw [List.mapM_cons] at h
+    cases hF : F a with
+    | none => simp [hF] at h
+    | some b =>
+      cases has : as.mapM F with
+      | none => simp [hF, has] at h
+      | some r' =>
+        simp [hF, has] at h
+        subst h
+        simp only [List.map_cons]
+        rw [hFG a (by simp) b hF, ih r' (fun a' ha' => hFG a' (List.mem_cons_of_mem _ ha')) has]
+
+/-- **the concrete centroid estimator fills exactly the span**: whenever `refine_tracks_centroid`
+    (bias correction off) succeeds, the refined tracks are the input tracks in order, each on the scan
+    lines `first … last` of its source track — `refine_fills_span` instantiated with the modelled
+    estimator instead of an arbitrary one. -/
+theorem centroid_refinement_fills_span (eps : Rat) (img : List (List Rat)) (h : Nat) (g : List Track)
+    (r : List (List Pt)) (hr : refineCentroidCoords eps img h g = some r) :
+    r.map (fun tr => tr.map (·.1)) = refineSpan g := by
+  unfold refineCentroidCoords at hr
+  unfold refineSpan refineCentroid
+  rw [List.map_map]
+  apply mapM_option_map g _ _ _ r _ hr
+  intro tr _ b hb
+  simp only [Function.comp, Track.times, List.map_map]
+  rw [mapM_option_fst _ _ b hb]
+  rfl
+
+
 end Verif.C17
